@@ -143,6 +143,7 @@ def main(argv=None):
         machinery.extend(f"{part.name}: {e}" for e in st.errors)
         if st.capped:
             exhaustive = False
+            print(f"NOTE part {part.name}: time cap reached; what was covered below the cap is in the evidence (exhaustive=false)")
         if st.executions > 8 and len(st.buckets) < 2 and not getattr(part, "single_bucket_ok", False):
             machinery.append(f"{part.name}: vacuous exploration - {st.executions} executions, one outcome {list(st.buckets)}")
         per_part[part.name] = {
